@@ -562,40 +562,38 @@ def flags(variant, emit=False):
 
 
 def classify(proj, d, order, missing, extra, traces, tags_items, variant):
-    """key of a known finding class for a company/alone difference, or None"""
+    """groups of a company/alone difference: {key of a known finding class or None: [findings]}"""
     tpl = proj["opts"]["template"]
-    # F17c: two different findings of the union render to the same text
-    if missing and not extra:
-        texts = {}
-        for f in order:
-            for x in proj["_alone"][f]:
-                texts.setdefault(render(tpl, x), set()).add(tag_of(x))
-        if all(len(texts.get(render(tpl, x), ())) > 1 for x in missing):
-            return K_TEXT
-    if missing and not extra:
-        keys = set()
-        for x in missing:
-            loc = x["locs"][0] if x["locs"] else None
-            if not loc:
-                return None
-            hit = None
+    groups = {}
+    if extra:
+        groups[None] = list(extra)
+    texts = {}
+    for f in order:
+        for x in proj["_alone"][f]:
+            texts.setdefault(render(tpl, x), set()).add(tag_of(x))
+    for x in missing:
+        # F17c: two different findings of the union render to the same text
+        if len(texts.get(render(tpl, x), ())) > 1:
+            groups.setdefault(K_TEXT, []).append(x)
+            continue
+        loc = x["locs"][0] if x["locs"] else None
+        hit = None
+        if loc:
             for g in order:
                 for s in traces[g]["supprs"]:
                     if s["type"] == "macro":
-                        if s["id"] == x["id"] and any(s.get("macro") in ns for (mf, ml), ns in
-                                                       [(k, v) for fm in order for k, v in traces[fm]["macros"].items()]
-                                                       if mf == loc[0] and str(ml) == loc[1]):
+                        # F17b: a macro suppression of another file, the macro name is used on the line of the finding
+                        if s["id"] == x["id"] and s["file"] != loc[0] and any(
+                                s.get("macro") in ns for fm in order for (mf, ml), ns in traces[fm]["macros"].items()
+                                if mf == loc[0] and str(ml) == loc[1]):
                             hit = hit or K_MACRO
+                    # F17a: a suppression written in another file whose relative name is a path tail of the finding's file
                     elif s["id"] == x["id"] and s["file"] != loc[0] and loc[0].endswith("/" + s["file"]) and \
                             (s["type"] != "unique" or str(s["line"]) == loc[1]) and \
                             (s["type"] != "block" or s["lb"] <= int(loc[1]) <= s["le"]):
                         hit = K_TAIL
-            if hit is None:
-                return None
-            keys.add(hit)
-        if len(keys) == 1:
-            return keys.pop()
-    return None
+        groups.setdefault(hit, []).append(x)
+    return groups
 
 
 def eval_project(ctx, res, drv, proj, variant, k, orders=None, extra_exec=False):
@@ -680,16 +678,19 @@ def eval_project(ctx, res, drv, proj, variant, k, orders=None, extra_exec=False)
         gset = set(t for t, _ in got)
         missing = [union[t] for t in union if t not in gset]
         extra = [x for x in comp if tag_of(x) not in union]
-        key = None
+        keys = set()
         if missing or extra:
-            key = classify(proj, d, o, missing, extra, traces, tags.items, variant)
-            viol.append((key, o, missing, extra))
-            res.violation("company run %s: findings missing %s / extra %s compared with the alone runs" %
-                          (o, [tag_of(x)[:90] for x in missing][:3], [tag_of(x)[:90] for x in extra][:3]),
-                          dict(files=proj["files"], order=o, opts=opts, missing=[tag_of(x) for x in missing], extra=[tag_of(x) for x in extra]),
-                          concrete=True, key=key)
+            groups = classify(proj, d, o, missing, extra, traces, tags.items, variant)
+            keys = set(groups)
+            for key, items in groups.items():
+                viol.append((key, o, [x for x in items if x in missing], [x for x in items if x in extra]))
+                res.violation("company run %s: findings %s compared with the alone runs: %s" %
+                              (o, "missing" if key is not None or not extra else "missing / extra", [tag_of(x)[:90] for x in items][:3]),
+                              dict(files=proj["files"], order=o, opts=opts, findings=[tag_of(x) for x in items],
+                                   missing=[tag_of(x) for x in missing], extra=[tag_of(x) for x in extra]),
+                              concrete=True, key=key)
         # the model must see the same hypothesis failing
-        if (missing or extra) and key != K_TEXT and all(p["I"] == "11111" for p in per):
+        if (missing or extra) and keys != {K_TEXT} and all(p["I"] == "11111" for p in per):
             bad_comp.append(dict(order=o, note="implementation differs from the alone runs although Indep holds for every file in the model"))
         if extra_exec and len(o) >= 2:
             for ex in ("thread", "process"):
@@ -701,10 +702,10 @@ def eval_project(ctx, res, drv, proj, variant, k, orders=None, extra_exec=False)
                 extr = [x for x in non_wp(compe) if tag_of(x) not in union]
                 res.case("exec|%s|%s" % (ex, ops[len(srcs) + j]), nontriv, None)
                 if miss or extr:
-                    key = classify(proj, d, o, miss, extr, traces, tags.items, variant)
-                    res.violation("-j2 --executor=%s %s: findings missing %s / extra %s compared with the alone runs" %
-                                  (ex, o, [tag_of(x)[:90] for x in miss][:3], [tag_of(x)[:90] for x in extr][:3]),
-                                  dict(files=proj["files"], order=o, opts=opts, executor=ex), concrete=True, key=key)
+                    for key, items in classify(proj, d, o, miss, extr, traces, tags.items, variant).items():
+                        res.violation("-j2 --executor=%s %s: findings differ from the alone runs: %s" % (ex, o, [tag_of(x)[:90] for x in items][:3]),
+                                      dict(files=proj["files"], order=o, opts=opts, executor=ex, findings=[tag_of(x) for x in items]),
+                                      concrete=True, key=key)
     shutil.rmtree(d, ignore_errors=True)
     return dict(bad_alone=bad_alone, bad_comp=bad_comp, viol=viol)
 
@@ -736,7 +737,7 @@ def ainfo_errors(bd, d):
     return out
 
 
-def bd_history(ctx, res, files, touch, opts_extra, k):
+def bd_history(ctx, res, files, touch, opts_extra, k, cold_alone=False):
     """cold company run, change the files in `touch`, then warm company run and warm alone runs on copies of the build dir.
     Returns per-file analyzer-information contents and printed findings for both."""
     d = os.path.join(ctx.tmp, "b%d" % k)
@@ -745,6 +746,15 @@ def bd_history(ctx, res, files, touch, opts_extra, k):
     srcs = sorted(p for p in files if p.endswith(".c"))
     args = [ctx.cppcheck, "-q", "--xml", "--template=" + T_FULL, "--cppcheck-build-dir=bd"] + opts_extra
     rc0, cold, _ = run_cpp(args + srcs, d)
+    cold_comp_info = ainfo_errors(os.path.join(d, "bd"), d)
+    cold_alone_info = {}
+    if cold_alone:
+        for f in srcs:
+            b = "cbd_" + re.sub(r"\W", "_", f)
+            os.makedirs(os.path.join(d, b), exist_ok=True)
+            a2 = [x if not x.startswith("--cppcheck-build-dir") else "--cppcheck-build-dir=" + b for x in args]
+            run_cpp(a2 + [f], d)
+            cold_alone_info[f] = ainfo_errors(os.path.join(d, b), d).get(f)
     for t, newtext in touch.items():
         open(os.path.join(d, t), "w").write(newtext)
     alone = {}
@@ -760,7 +770,8 @@ def bd_history(ctx, res, files, touch, opts_extra, k):
         alone[f] = non_wp(fa or [])
         alone_info[f] = ainfo_errors(os.path.join(d, b), d).get(f)
     shutil.rmtree(d, ignore_errors=True)
-    return dict(srcs=srcs, cold=non_wp(cold or []), warm=non_wp(warm or []), alone=alone, comp_info=comp_info, alone_info=alone_info)
+    return dict(srcs=srcs, cold=non_wp(cold or []), warm=non_wp(warm or []), alone=alone, comp_info=comp_info, alone_info=alone_info,
+                cold_comp_info=cold_comp_info, cold_alone_info=cold_alone_info)
 
 
 def bd_checks(ctx, res, variant):
@@ -798,7 +809,12 @@ def bd_checks(ctx, res, variant):
             body = "int %s_f(void)\n{\n  int *p = 0;\n  return *p;\n}\n" % s[0] if rng.random() < 0.5 else "int %s_g(int a) { return a; }\n" % s[0]
             files[s] = ('#include "h.h"\n' if rng.random() < 0.7 else "") + body
         touch = {s: files[s] + "int %s_t(void) { return %d; }\n" % (s[0], i) for s in srcs if rng.random() < 0.5}
-        r = bd_history(ctx, res, files, touch, [], 10 + i)
+        r = bd_history(ctx, res, files, touch, [], 10 + i, cold_alone=True)
+        cdiff = [s for s in r["srcs"] if r["cold_comp_info"].get(s) != r["cold_alone_info"].get(s)]
+        if cdiff:
+            res.violation("cold build dir: analyzer information of %s differs between the company run and the alone run" % cdiff,
+                          dict(files=files, company={s: r["cold_comp_info"].get(s) for s in cdiff}, alone={s: r["cold_alone_info"].get(s) for s in cdiff}),
+                          concrete=True, key=None)
         diff = [s for s in r["srcs"] if r["comp_info"].get(s) != r["alone_info"].get(s)]
         res.case("bd|%s|%s" % (json.dumps(files, sort_keys=True), sorted(touch)), len(touch) > 0, None)
         res.count("bd:histories")
